@@ -81,7 +81,9 @@ struct OptCache {
     // optimum of the case's graph (brute force if in bounds, else de Pina); self-check A == B on small graphs
     orc::Opt opt; bool have = false; bool selfcheck_failed = false; std::string which;
     void compute(const orc::Graph &og, bool crosscheck) {
-        opt = orc::mcb_bruteforce(og);
+        // brute force enumerates every simple cycle (<= 2^dim - 1 of them): beyond dimension 16 go to de Pina at once
+        // instead of enumerating up to the cap first
+        opt = orc::cycle_space_dim(og) <= 16 ? orc::mcb_bruteforce(og) : orc::Opt();
         which = "A";
         if (opt.ok) {
             if (crosscheck && og.m() <= 24) {
